@@ -94,6 +94,14 @@ def rule_directories(ctx):
     ctx.check(seq == ["_try_remove", "_prune_empty_dirs", "clear"], rm.fq, "files first, then directories, then the queue is cleared", f"order is {seq}", "order kept")
     pr = ctx.prog.func("finalize._prune_empty_dirs")
     ctx.check("todo.append(parent)" in ast.unparse(pr.node), pr.fq, "walks up to parents that became empty", "parents of removed directories are no longer considered", "walks up")
+    # a directory can become empty only after it was looked at (a deeper branch is pruned later), so every popped
+    # directory is examined again: nothing in the worklist loop skips an entry
+    loops = [w for w in ast.walk(pr.node) if isinstance(w, ast.While)]
+    if not loops:
+        raise AnalysisError("_prune_empty_dirs: worklist loop not found")
+    skips = [n for w in loops for n in ast.walk(w) if isinstance(n, (ast.Continue, ast.Break, ast.Return))]
+    ctx.check(not skips, pr.fq, "every popped directory is examined (no skip in the worklist loop)",
+              f"the worklist loop skips entries ({', '.join(type(n).__name__.lower() for n in skips)} at line {skips[0].lineno if skips else 0}): a common ancestor that was seen while non-empty is not looked at again after its last child is removed and stays behind", "no continue/break", where=ctx.where_of(pr, skips[0]) if skips else ctx.where_of(pr))
 
 
 def rule_optional_filter(ctx):
@@ -126,6 +134,7 @@ RULES = [
 ]
 
 MUTANTS = [
+    Mutant("prune-visited-once", "finalize.py", in_function("_prune_empty_dirs", lambda s: s.replace("    todo = sorted(dirs)\n    while len(todo) > 0:\n        path = todo.pop()\n", "    todo = sorted(dirs)\n    visited = set()\n    while len(todo) > 0:\n        path = todo.pop()\n        if path in visited:\n            continue\n        visited.add(path)\n") if "path = todo.pop()" in s else None), ("R-C07-4",)),
     Mutant("undeclared-forgets-output", "file.py", in_function("File.initialize_row", replace_once("if state in (FileState.UNDECLARED, FileState.PLANNED):", "if state == FileState.PLANNED:")), ("R-C07-6",)),
     Mutant("skip-revert", "builder.py", in_function("Builder.finalize", replace_once("            await revert_optional_steps(self.workflow, self.reporter)\n", "")), ("R-C07-1",)),
     Mutant("remove-before-delete", "builder.py", in_function("Builder.finalize", lambda s: s.replace("            async with self.db:\n                self.workflow.delete_detached()\n            await remove_deletable_files(self.workflow, self.reporter)\n", "            await remove_deletable_files(self.workflow, self.reporter)\n            async with self.db:\n                self.workflow.delete_detached()\n") if "self.workflow.delete_detached()" in s else None), ("R-C07-1",)),
